@@ -679,6 +679,46 @@ theorem subsub_write_hit_basic (dims : Shape) (items1 items2 : List Ix) (R1 R2 :
   subsub_write_hit dims items1 items2 R1 R2 w3 h1 h2 (index_src_inj_of_basic dims items1 R1 h1 hb1)
     (index_src_inj_of_basic R1.shape items2 R2 h2 hb2) r hr
 
+/-- **`set_at_` with a nested-tuple index writes through views only.** `td.set_at_(key, value, (i1, i2))` (the `_sub_index` branch of
+`_set_at_str`: `entry[i1][i2].copy_(value)`), for `i1` accepted by torch on the entry (result `R1`) and `i2` on `R1.shape` (result `R2`):
+when it succeeds the value broadcasts to `R2.shape` as `copy_` requires, and
+* if some item of `i1` or `i2` is an index array / list / range / mask, NOTHING is written (the value goes into a temporary — the hazard the
+  code warns about, here exactly delimited);
+* if all items are basic, the entry element `R1.src (R2.src r)` receives exactly the value element meant for `r`, for every cell `r` of the
+  window, and every other element of the entry is untouched. -/
+theorem set_at_nested_index (shape : Shape) (i1 i2 : List Ix) (v : Shape) (R1 R2 : IndexResult)
+    (w : List Nat → Option (List Nat))
+    (h1 : index shape i1 = .ok R1) (h2 : index R1.shape i2 = .ok R2) (h : setAtMulti shape i1 i2 v = .ok w) :
+    (v.length ≤ R2.shape.length ∧ valueOk v R2.shape = true) ∧
+    ((i1 ++ i2).all isBasic = false → ∀ p, w p = none) ∧
+    ((i1 ++ i2).all isBasic = true →
+      (∀ r ∈ coords R2.shape, w (R1.src (R2.src r)) = some (valueCoord v R2.shape r)) ∧
+      ∀ p, (∀ r ∈ coords R2.shape, R1.src (R2.src r) ≠ p) → w p = none) := by
+  have hv1 := shares_memory_iff_basic shape i1 R1 h1
+  have hv2 := shares_memory_iff_basic R1.shape i2 R2 h2
+  have hall : (i1 ++ i2).all isBasic = (R1.view && R2.view) := by rw [List.all_append, hv1, hv2]
+  unfold setAtMulti at h
+  simp only [h1, h2, bind, Except.bind] at h
+  by_cases hok : (decide (v.length ≤ R2.shape.length) && valueOk v R2.shape) = true
+  · simp only [hok, Bool.not_true, Bool.false_eq_true, if_false] at h
+    refine ⟨by simpa using hok, ?_, ?_⟩
+    · intro hb
+      rw [hall] at hb
+      simp only [hb, Bool.false_eq_true, if_false, pure, Except.pure, Except.ok.injEq] at h
+      intro p; rw [← h]
+    · intro hb
+      have hb' := hb
+      rw [hall] at hb'
+      simp only [hb', if_true, pure, Except.pure, Except.ok.injEq] at h
+      rw [List.all_append, Bool.and_eq_true] at hb
+      subst h
+      refine ⟨fun r hr => (subsub_write_hit_basic shape i1 i2 R1 R2 _ h1 h2 hb.1 hb.2 r hr).1, ?_⟩
+      intro p hp
+      apply subsub_write_frame
+      intro q _ hqp r hr hrq
+      exact absurd (by rw [hrq, hqp]) (hp r hr)
+  · simp [hok] at h
+
 /-- **Reading through a sub-tensordict of a sub-tensordict is torch applied twice to the batch dims.** For Ellipsis-free tuple indices,
 `i1` accepted by torch on the batch shape (result `R1`) and `i2` accepted on `R1.shape` (result `R2`):
 `td._get_sub_tensordict(i1)._get_sub_tensordict(i2).get(key)` is, for every leaf `bs ++ feat`, a tensor of shape `R2.shape ++ feat` holding at
